@@ -288,6 +288,11 @@ pub fn build(full_name: &str, level: u8) -> Option<Scenario> {
             s.timeoutable = vec![];
             s.clients_at = vec![1];
             s.crashable = vec![2];
+            if n.contains("-elect") {
+                // leadership changes while uncommitted payload is outstanding
+                s.timeoutable = vec![1, 2];
+                s.clients_at = vec![1];
+            }
             s.prop_sizes = if flow { vec![0, 1, 3] } else { vec![1] };
             s.setcap_values = vec![0, 1, 3];
             if n.contains("-cap") {
@@ -332,7 +337,10 @@ pub fn build(full_name: &str, level: u8) -> Option<Scenario> {
                 _ => (4, 3, 2, 2, 3, 2, 7, 3, 2, 1),
             };
             s.max_index = mi + if n.contains("-div") { 1 } else { 0 };
-            s.max_term = 3;
+            s.max_term = if n.contains("-elect") { 4 } else { 3 };
+            if n.contains("-elect") {
+                s.prop_sizes = vec![3];
+            }
             let cap_variant = n.contains("-cap");
             let mix = n.contains("-mix");
             s.caps = caps(|c| {
@@ -352,6 +360,14 @@ pub fn build(full_name: &str, level: u8) -> Option<Scenario> {
                     c.setcaps = 1 + (l as u8) / 2;
                     c.beats = (l as u8).min(2);
                     c.reorders = 0;
+                }
+                if n.contains("-elect") {
+                    c.timeouts = 2;
+                    c.props = if live { 1 } else { 2 } + (l as u8) / 2;
+                    c.beats = 0;
+                    c.reorders = 0;
+                    c.dups = 0;
+                    c.drops = (l as u8).min(1);
                 }
                 if mix {
                     c.props = 1 + (l as u8) / 2;
@@ -482,6 +498,14 @@ pub fn build(full_name: &str, level: u8) -> Option<Scenario> {
             s.clients_at = vec![1];
             s.crashable = vec![3];
             s.timeoutable = vec![3];
+            if n.contains("-lazy") {
+                s.inputs_per_ready = 2;
+            }
+            if n.contains("-lag") {
+                for nd in s.nodes.iter_mut() {
+                    nd.apply_lag = true;
+                }
+            }
             s.fault_types = vec![raft::eraftpb::MessageType::MsgSnapshot as u8, raft::eraftpb::MessageType::MsgAppendResponse as u8];
             let (compacts, props, dups, drops, reorders, snapfail, reqsnaps, cuts, to, beats, mi) = match l {
                 0 => (0, 0, 0, 0, 0, 1, 0, 0, 0, 1, 6),
@@ -504,6 +528,10 @@ pub fn build(full_name: &str, level: u8) -> Option<Scenario> {
                 c.cuts = cuts;
                 c.timeouts = to;
                 c.beats = beats;
+                if n.contains("-lazy") || n.contains("-lag") {
+                    c.timeouts = to.max(1);
+                    c.lazy = 2;
+                }
             });
         }
         // ------------------------------------------------------------ READ
@@ -556,7 +584,7 @@ pub fn build(full_name: &str, level: u8) -> Option<Scenario> {
         }
         // ------------------------------------------------------------ XFER
         n if n.starts_with("xfer") => {
-            if n.contains("-abort") {
+            if n.contains("-abort") || n.contains("-pipe") {
                 s = Scenario::new(name, 3);
             } else {
                 s = Scenario::new(name, 4);
@@ -584,6 +612,15 @@ pub fn build(full_name: &str, level: u8) -> Option<Scenario> {
             s.timeoutable = vec![];
             s.transfer_targets = vec![1, 2, 3, 4, 9];
             s.cc_menu = vec![CcSpec::V1(1, 3)];
+            let pipe = n.contains("-pipe");
+            if pipe {
+                // two appends pipelined to the transfer target, acknowledged separately
+                s.clients_at = vec![1];
+                s.transfer_targets = vec![3];
+                for nd in s.nodes.iter_mut() {
+                    nd.max_size_per_msg = 0;
+                }
+            }
             let abort = n.contains("-abort");
             if abort {
                 // one transfer to a voter, the leader ticks past the transfer timeout and goes on
@@ -594,6 +631,8 @@ pub fn build(full_name: &str, level: u8) -> Option<Scenario> {
                 }
             }
             let (xf, props, beats, drops, dups, ccs, mt) = match l {
+                0 if pipe => (1, 2, 0, 1, 0, 0, 3),
+                1 if pipe => (1, 2, 1, 1, 1, 0, 3),
                 0 if abort => (1, 1, 3, 0, 0, 0, 3),
                 1 if abort => (1, 1, 4, 1, 0, 0, 3),
                 2 if abort => (2, 1, 4, 1, 1, 0, 3),
